@@ -438,7 +438,9 @@ theorem sendAutoPing_Ext (s : S) : Ext s (sendAutoPing s) := by
   have h := (beginAutoPing_Ext s).trans (sendPing_Ext (beginAutoPing s) ((beginAutoPing s).pingPending.getD []))
   split
   · exact h.trans (armPingTimeout_Ext _)
-  · exact h
+  · split
+    · exact h.trans (armPingNext_Ext _)
+    · exact h
 
 theorem cancelAutoPingTimeout_Ext (s : S) : Ext s (cancelAutoPingTimeout s) := by
   unfold cancelAutoPingTimeout
